@@ -217,6 +217,7 @@ def run_shards(pid, preamble, case_type, cases, check_fn, shard=400, timeout=900
 def run_diag(pid, preamble, case_type, cases, diag_fn, timeout=600):
     """Evaluate `<diag_fn> cases : list string` for a few failing cases; returns the strings."""
     rundir = os.path.join(COQ, "Run")
+    os.makedirs(rundir, exist_ok=True)
     name = "%s_diag" % pid
     with open(os.path.join(rundir, name + ".v"), "w") as f:
         f.write("\n".join([preamble, "Open Scope Z_scope.",
